@@ -22,11 +22,15 @@ const (
 	YBlock
 	YOpBoundary
 	YAtomic
+	YGo
+	YChanSend
+	YChanRecv
+	YWaitGroup
 	nYKinds
 )
 
 var YieldNames = [nYKinds]string{"", "Lock", "Locked", "Unlock", "RLock", "RLocked", "RUnlock",
-	"OnceEnter", "OnceExit", "PoolGet", "PoolGot", "PoolPut", "FP", "TaskEnd", "Block", "OpBoundary", "Atomic"}
+	"OnceEnter", "OnceExit", "PoolGet", "PoolGot", "PoolPut", "FP", "TaskEnd", "Block", "OpBoundary", "Atomic", "Go", "ChanSend", "ChanRecv", "WaitGroup"}
 
 // Scheduling policies (explore mode only; replay reads concrete choices).
 const (
@@ -47,7 +51,7 @@ const (
 	VHarnessBug
 )
 
-const MaxTasks = 8
+const MaxTasks = 64
 
 type task struct {
 	wake    chan struct{}
@@ -100,6 +104,8 @@ type Stats struct {
 	PoolGC       int64
 	PoolCross    int64 // item handed to a task other than the one that put it
 	PoolReuse    int64 // item reused at all
+	Spawned      int64 // tasks started by the library itself (go statements)
+	ChanOps      int64
 	FPHits       int64
 	FPPanics     int64
 	EventHash    uint64
@@ -111,6 +117,7 @@ type runtimeState struct {
 	cfg       Config
 	tape      *Tape
 	ntasks    int
+	nuser     int // tasks started by the harness (their slots are never reused)
 	tasks     [MaxTasks]task
 	cur       int
 	back      chan struct{}
@@ -449,6 +456,7 @@ func Begin(cfg Config) {
 	}
 	resetPools()
 	resetAddrs()
+	resetChans()
 }
 
 // Run executes fns as simulated tasks until all have finished and returns.
@@ -459,6 +467,7 @@ func Run(fns []func()) {
 		panic("simrt: too many tasks")
 	}
 	R.ntasks = n
+	R.nuser = n
 	R.back = make(chan struct{})
 	R.npct = 0
 	for i := 0; i < n; i++ {
@@ -501,4 +510,56 @@ func Run(fns []func()) {
 	raceOn()
 	R.active = false
 	R.join.Wait()
+}
+
+// Go starts f the way a go statement would: as a new simulated task while the
+// simulator runs (the scheduler then owns its interleaving with every other
+// task), as a plain goroutine otherwise. simprep rewrites the library's go
+// statements into calls of Go.
+func Go(f func()) {
+	if !Running() || quietNow() {
+		go f()
+		return
+	}
+	id := spawnSlot()
+	if id < 0 {
+		fatal(VHarnessBug, "more than MaxTasks simulated tasks")
+	}
+	R.join.Add(1)
+	go func() {
+		raceOff()
+		<-R.tasks[id].wake
+		raceOn()
+		f()
+		R.join.Done()
+		taskExit(id)
+	}()
+	Yield(YGo, uint64(id))
+}
+
+//go:norace
+func quietNow() bool { return R.quiet != 0 }
+
+//go:norace
+func spawnSlot() int {
+	id := -1
+	for i := R.nuser; i < R.ntasks; i++ {
+		if R.tasks[i].done {
+			id = i // the slot of a spawned task that has finished is reused
+			break
+		}
+	}
+	if id >= 0 {
+		R.tasks[id] = task{wake: make(chan struct{}), prio: R.tasks[R.cur].prio - 1}
+		R.st.Spawned++
+		return id
+	}
+	if R.ntasks >= MaxTasks {
+		return -1
+	}
+	id = R.ntasks
+	R.tasks[id] = task{wake: make(chan struct{}), prio: R.tasks[R.cur].prio - 1}
+	R.ntasks++
+	R.st.Spawned++
+	return id
 }
